@@ -43,6 +43,11 @@ FIRST = {
     "C07-6": "caught (replay)", "C08-5": "caught (replay)", "C09-6": "refinement theorem C09_gen_default broken, no-failing-input-found", "C10-6": "missed",
     "C11-6": "missed", "C12-6": "missed", "C13-6": "missed", "C14-6": "missed", "C15-6": "missed", "C16-6": "missed", "C17-6": "caught (replay)",
     "C18-6": "missed", "C19-6": "missed", "C20-6": "missed",
+    # round 7
+    "C01-7": "missed", "C02-7": "caught (replay)", "C03-7": "caught (replay)", "C04-7": "missed", "C05-7": "caught (replay)", "C06-7": "caught (replay)",
+    "C07-7": "missed", "C08-6": "caught (replay)", "C09-7": "missed", "C10-7": "missed", "C11-7": "missed",
+    "C12-7": "translator failure + refinement theorems C14_gen_uniform_* broken, no-failing-input-found", "C13-7": "missed", "C14-7": "missed",
+    "C15-7": "caught (replay)", "C16-7": "missed", "C17-7": "missed", "C18-7": "missed", "C19-7": "missed", "C20-7": "caught (replay)",
 }
 
 
